@@ -18,6 +18,7 @@ PROPS = {
     "C04": dict(level="exploration", sel=lambda c: c.tracked_alloc, cases=(20000, 100000), max_len=(60, 120), modes=("", "small"), fault_phase=(4000, 40000)),
     "C05": dict(level="fault_enumeration", sel=lambda c: True, cases=(15000, 120000), max_len=(25, 25), fault=True),
     "C06": dict(level="fault_enumeration", sel=lambda c: True, cases=(12000, 100000), max_len=(25, 25), fault=True),
+    "C18": dict(level="fault_enumeration", sel=lambda c: True, cases=(6000, 50000), max_len=(25, 25), fault=True),
     "C07": dict(level="exploration", sel=lambda c: c.tracked_alloc, cases=(25000, 120000), max_len=(60, 120)),
     "C09": dict(level="exploration", sel=lambda c: True, cases=(25000, 120000), max_len=(60, 120)),
     "C10": dict(level="exploration", sel=lambda c: True, cases=(25000, 120000), max_len=(60, 120)),
@@ -31,7 +32,9 @@ PROPS = {
 def build(tier):
     """Builds the hist binary for the tier's configuration grid; returns its path."""
     grid = configs.grid(tier)
-    key = C.tree_hash(extra="|".join(c.source() for c in grid) + CXX + STD + " ".join(C.SAN_FLAGS))
+    srcs = [os.path.join(C.HARNESS, n) for n in ("core.hpp", "elem.hpp", "alloc.hpp", "iters.hpp", "program.hpp", "interp.hpp",
+                                                  "interp_base.inc", "interp_ops1.inc", "interp_ops2.inc", "interp_run.inc", "hist_main.cpp")]
+    key = C.sha_files([C.HEADER] + srcs, "|".join(c.source() for c in grid) + CXX + STD + " ".join(C.SAN_FLAGS))
     with C.BuildDir("hist-" + tier, key) as bd:
         exe = bd.file("hist")
         if bd.done("hist") and os.path.exists(exe):
@@ -297,6 +300,7 @@ def run_check(prop, tier, verdict, extra_args=None):
 
 
 RULES = {
+    "C18": "static: exhaustive grid of noexcept(...) values vs the documented conditions; run-time: case = (fault-free prefix, any operation), every fault point enumerated, std::terminate intercepted, noexcept operations must reach no eligible throw point; non-trivial = a documented value that is false because of exactly one factor (static) / a fault that fired after an earlier eligible event (run-time)",
     "C01": "rapidcheck-generated programs (relative-argument ops over 4 slots); non-trivial = history contains an inline<->heap transition and a mid-sequence insert/erase after it; distinct by 64-bit fingerprint of (configuration, op list)",
     "C02": "same generator, whole-container-heavy weights; non-trivial = some slot passed through >= 3 of the representation classes {fresh-inline, heap, shrunk-back-inline, stolen-from, element-wise-moved-from, post-throw}",
     "C03": "same generator; non-trivial = history contains >= 1 reallocation, >= 1 mid-sequence shift and >= 1 whole-container transfer",
